@@ -154,6 +154,11 @@ def oracle(case, r):
         left = xfer.norm_real(r.final)
         if not getattr(r, "close_completed", False):
             bad.append(("close-hangs", "Server.close() has not completed although nothing is runnable any more"))
+        if r.at_close is not None:
+            # what Server.close() left behind at the instant it returned and that went away only later
+            late = [n for n, v, w in zip(xfer.SLOT_NAMES, xfer.norm_real(r.at_close), left) if v and not w]
+            if late:
+                bad.append(("at-close:" + "+".join(late), f"at the instant Server.close() returned the server still had {late}: {r.at_close}"))
         if r.final["main_listener"]:
             bad.append(("main-listener", "the server's listening socket is still open after Server.close()"))
     else:
